@@ -689,6 +689,21 @@ class Inliner:
                         return True
             return False
 
+        # module-level tables bound once (and never rebound by a function)
+        mod_consts, mod_counts = {}, {}
+        for st in self.tree.body:
+            if isinstance(st, ast.Assign):
+                for t in st.targets:
+                    if isinstance(t, ast.Name):
+                        mod_counts[t.id] = mod_counts.get(t.id, 0) + 1
+                        mod_consts[t.id] = st.value
+        for x in ast.walk(self.tree):
+            if isinstance(x, ast.Global):
+                for n_ in x.names:
+                    mod_counts[n_] = mod_counts.get(n_, 0) + 2
+        mod_consts = {k: v for k, v in mod_consts.items()
+                      if mod_counts.get(k) == 1
+                      and isinstance(v, (ast.Tuple, ast.List))}
         for f in [x for x in ast.walk(self.tree)
                   if isinstance(x, ast.FunctionDef)]:
             consts = {}
@@ -720,6 +735,10 @@ class Inliner:
                         if isinstance(it, ast.Name) and counts.get(
                                 it.id) == 1:
                             it = consts.get(it.id)
+                        elif isinstance(it, ast.Name) and not counts.get(
+                                it.id) and it.id in mod_consts and \
+                                it.id not in {a.arg for a in f.args.args}:
+                            it = mod_consts[it.id]
                         if not isinstance(it, (ast.Tuple, ast.List)) or \
                                 not (0 < len(it.elts) <= 8) or \
                                 not all(simple(x) for x in it.elts):
